@@ -1,13 +1,14 @@
 \* state-graph export for the conformance replay; harness/checks/C04.py rewrites the Deviations line with the
 \* deviations the implementation actually shows (all of them on the pinned tree)
+\* 3 holes, every action, 4 actions deep or Populate + 3
 SPECIFICATION Spec
 CONSTANTS
   MaxHoles = 3
   Names = {"a", "b"}
-  DepthLens = {0, 1, 2, 3}
+  DepthLens = {1, 2}
   Version = 21
   Deviations = {"RenameKeepsLabel", "WsRemoveKeepsChild", "HoleRemovalKeepsObjectRows", "HoleRemovalKeepsGroupChild", "StalePgIdCache", "EmptyTableRaises", "TableByLabel"}
-  MaxLevel = 5
+  MaxLevel = 4
   Acts = {"Populate", "AddHole", "AddDepthData", "AddIntervalData", "SetValues", "Rename", "RemoveDataViaParent", "RemoveDataViaWorkspace", "RemoveHoleViaParent", "RemoveHoleViaWorkspace", "RemovePropertyGroup", "AddValuesToTable", "Reopen", "CopyGroup"}
 VIEW vw
 INVARIANT ExportState
